@@ -110,6 +110,9 @@ func curGid() uint64 {
 	return g
 }
 
+// CurGid is the id of the calling goroutine.
+func CurGid() uint64 { return curGid() }
+
 // Cur returns the task of the calling goroutine (nil if the caller is not a
 // task, e.g. the scheduler or a library-internal goroutine).
 //
